@@ -414,7 +414,7 @@ Theorem py_alias_good a s ds s' :
     good_C04 Python (c04_expect_of C04Alias (atype a) false (py_show y))
              (c04r_seen (c04_typed py_show (renamed (aid a)) [] C04Alias x)) = true.
 Proof.
-  intros Hm H. cbn [py_decl_of] in H. apply mbind_ok in H as (x & s1 & Hx & H). unfold ret in H. injection H as <- _.
+  intros Hm H. cbn [py_decl_of] in H. apply mbind_ok in H as (x & s1 & Hx & H). apply mbind_ok in H as (utv & stv & _ & H). unfold ret in H. injection H as <- _.
   destruct (py_texp_strip _ _ _ _ _ Hm Hx) as (y & s3 & s4 & Hy & Hs & Hh).
   exists x, y, s3, s4. repeat split; [exact Hy|]. apply typed_good; [discriminate|exact Hh|exact Hs].
 Qed.
